@@ -3,7 +3,7 @@ from props._e3 import make
 
 globals().update(make(
     'C08', ('route',),
-    [('groups', 6), ('general', 4), ('parallel', 4), ('batching', 1), ('contention', 1)],
+    [('groups', 6), ('general', 4), ('parallel', 8), ('rework', 3), ('batching', 1), ('contention', 1)],
     'Oracle: a route graph derived from the SPEC (rewiring included from the moment it happened). At every quiescent '
     'instant and at the end, for every generated leaf part: its routing history starts with its source; every '
     'consecutive pair is a configured edge, where a group path leads to the input device(s) of its group and an output '
@@ -11,15 +11,16 @@ globals().update(make(
     'element is the device that currently holds the part (no leftovers from refused hand-overs, no gaps); the '
     'group-path stack the part carries equals a stack implied by its history. In every receive callback: the device '
     'and every gate / group path passed on the way in were not input-blocked, every gate passed accepts the part '
-    '(predicate recomputed from the spec); sinks\' collected lists are in arrival order. Idle-longest: when a holding '
+    '(predicate recomputed from the spec - on the immutable name index for the complementary pairs, on the mutable quality for the rework-loop gates); sinks\' collected lists are in arrival order. Idle-longest: when a holding '
     'device whose direct downstreams are all single-slot devices hands a part to X, no sibling able to take it has '
     'been idle longer than X under every admissible reading of "idle since". Non-trivial = at least one part entered '
     'a group used by at least two paths and left it AND at least one refused hand-over later succeeded; distinct = '
     'SHA-1 of the canonical spec JSON.',
     lambda mon, case: mon.c['handovers_after_block'] > 0 and shared_group_left(mon, case),
     lambda mon, case: (['contested-choice'] if mon.c['contested'] else [])
-    + (['nested-group'] if len(case['groups']) > 1 else []) + (['rewired'] if mon.m.rewired else []),
-    quick=(400, 4), thorough=(2000, 16)))
+    + (['nested-group'] if len(case['groups']) > 1 else []) + (['rewired'] if mon.m.rewired else [])
+    + (['rework-loop-gate-on-mutable-state'] if case.get('loops') else []),
+    quick=(1200, 4), thorough=(3000, 16)))
 
 
 def shared_group_left(mon, case):
